@@ -2,7 +2,7 @@
 from .. import cfgx
 from ..build import AnalysisBroken
 
-UNITS = ['client/QXmppCarbonManager.cpp', 'client/QXmppCarbonManagerV2.cpp']
+UNITS = ['client/QXmppCarbonManager.cpp', 'client/QXmppCarbonManagerV2.cpp', 'client/QXmppClient.cpp', 'server/QXmppIncomingClient.cpp']
 
 MANAGERS = {
     'QXmppCarbonManager::handleStanza': ['QXmppCarbonManager::messageSent', 'QXmppCarbonManager::messageReceived'],
@@ -171,6 +171,24 @@ def run(prog, run):
             run.violation(r4, 'carbon-managers#guard-mismatch', 'src/client/QXmppCarbonManager*.cpp', 'guards differ: %s' % guards)
         else:
             run.ok(r4, 'src/client/QXmppCarbonManager{,V2}.cpp', 'same operands: %s' % gs[0][0])
+    # the sender the managers look at is the one on the wire: the client library never rewrites the from/to of a received element
+    r6 = run.rule('C11.R6', 'what the managers compare is the sender attribute as received: no client-side function writes a from/to attribute into a DOM element '
+                            '(the server component does, for stanzas it routes - seen by this rule as its control)', floor=1)
+    client_sites, server_sites = [], []
+    for f in prog.fns.values():
+        for i, n in f.calls('QDomElement::setAttribute'):
+            if n.get('args') and f.strval(n['args'][0]) in ('from', 'to'):
+                (server_sites if '/src/server/' in f.file else client_sites).append((f, i))
+    if not server_sites:
+        raise AnalysisBroken('C11.R6: the control (QXmppIncomingClient stamping from/to) is not seen: the rule would pass vacuously')
+    run.instance(r6)
+    if client_sites:
+        f, i = client_sites[0]
+        run.violation(r6, '%s#rewrites-sender' % f.qname, f.loc(i),
+                      '%s writes the %s attribute of a received element before the extensions see it: the carbon managers then compare a value chosen by the client, '
+                      'not the sender on the wire (a wrapper without from is taken for one from the own account)' % (f.display()[:60], f.strval(f.nodes[i]['args'][0])))
+    else:
+        run.ok(r6, 'src/client', 'no setAttribute("from"/"to") in the client library (%d stamping sites in the server component seen as control)' % len(server_sites))
     if run.tier == 'thorough':
         r5 = run.rule('C11.R5', 'no other function in the library unwraps a carbons-namespaced child into a message', floor=2)
         for f in prog.fns.values():
